@@ -210,6 +210,11 @@ class URLInfo(object):
         info.username = percent_decode(username, encoding=encoding)
         info.password = percent_decode(password, encoding=encoding)
 
+        # The URL is reassembled with these encoded as UTF-8. Refuse what
+        # cannot be encoded (lone surrogates) now instead of in .url
+        normalize_username(info.username)
+        normalize_password(info.password)
+
         info.host = host
         info.hostname = hostname
         info.port = port or RELATIVE_SCHEME_DEFAULT_PORTS[scheme]
